@@ -19,6 +19,7 @@ var (
 	flagTrace  = flag.Bool("trace", false, "keep canonical trace")
 	flagDump   = flag.Bool("dumpplan", false, "print the generated plans")
 	flagSamplePlans = flag.Int("sampleplans", 0, "include the plan of the first k runs in the output")
+	flagPlanOnly = flag.Bool("planonly", false, "emit the generated plans without running them")
 	flagShrink = flag.String("shrink", "", "with -replay: minimise the plan for this assertion id")
 	flagBudget = flag.Int("budget", 400, "candidate executions allowed while shrinking")
 )
@@ -104,6 +105,10 @@ func TestProp(t *testing.T) {
 		plan := def.Gen(seed)
 		if *flagDump {
 			fmt.Println(string(plan.JSON()))
+		}
+		if *flagPlanOnly {
+			emit(outLine{Kind: "plan", Index: i, Seed: seed, Plan: plan})
+			continue
 		}
 		emit(outLine{Kind: "start", Index: i, Seed: seed})
 		res := runOne(t, def, plan, *flagTrace)
